@@ -758,6 +758,7 @@ pub fn emit_bindgen(
     let mut state = NominalState {
         state: crate::configs::State::new(&tree.0, env),
         generated_types: BTreeMap::new(),
+        generated_names: BTreeSet::new(),
     };
     let (env, actor) = state.nominalize_all(actor, prog);
     let old_stats = state.state.stats.clone();
@@ -904,9 +905,34 @@ fn path_to_var(path: &[TypePath]) -> String {
 struct NominalState<'a, 'b> {
     state: crate::configs::State<'a, BindingConfig>,
     generated_types: GeneratedTypes<'b>,
+    /// path-derived names handed out so far
+    generated_names: BTreeSet<String>,
 }
 
 impl<'b> NominalState<'_, 'b> {
+    /// Name for the anonymous type at `path`. The path-derived name can coincide with a definition of
+    /// the program (`type Item = ...; type t = vec record {..}` yields `TItem`, but `type _ = vec ...`
+    /// yields `Item`) or with a name derived from another path, and would then replace that definition
+    /// in the environment: number it until it is unique.
+    fn fresh_var(&mut self, env: &TypeEnv, path: &[TypePath]) -> String {
+        let base = path_to_var(path);
+        let mut name = base.clone();
+        let mut n = 1;
+        while self.generated_names.contains(&name)
+            || env.0.contains_key(&name)
+            || self
+                .state
+                .env
+                .0
+                .keys()
+                .any(|k| *k == name || k.to_case(Case::Pascal) == name)
+        {
+            n += 1;
+            name = format!("{base}{n}");
+        }
+        self.generated_names.insert(name.clone());
+        name
+    }
     // Convert structural typing to nominal typing to fit Rust's type system
     fn nominalize(
         &mut self,
@@ -974,7 +1000,7 @@ impl<'b> NominalState<'_, 'b> {
                         self.state.update_stats("name");
                         res
                     } else {
-                        path_to_var(path)
+                        self.fresh_var(env, path)
                     };
                     let ty = self.nominalize(
                         env,
@@ -1019,7 +1045,7 @@ impl<'b> NominalState<'_, 'b> {
                         self.state.update_stats("name");
                         res
                     } else {
-                        path_to_var(path)
+                        self.fresh_var(env, path)
                     };
                     let ty = self.nominalize(
                         env,
@@ -1085,7 +1111,7 @@ impl<'b> NominalState<'_, 'b> {
                         self.state.update_stats("name");
                         res
                     } else {
-                        path_to_var(path)
+                        self.fresh_var(env, path)
                     };
                     let ty = self.nominalize(
                         env,
@@ -1117,7 +1143,7 @@ impl<'b> NominalState<'_, 'b> {
                         self.state.update_stats("name");
                         res
                     } else {
-                        path_to_var(path)
+                        self.fresh_var(env, path)
                     };
                     let ty = self.nominalize(
                         env,
